@@ -151,6 +151,32 @@ package ech
 // client_hello.go / server_hello.go
 // ---------------------------------------------------------------------------
 
+// ClientHello layout (RFC 8446 4.1.2) as functions of the handshake message m, which starts at its msg_type byte:
+//   0 msg_type(1) | 1 length(3) | 4 legacy_version(2) | 6 random(32) | 38 legacy_session_id<u8> | cipher_suites<u16> |
+//   legacy_compression_methods<u8> | extensions<u16> : { type(2) data<u16> }*
+//@ purerec chSidLen(m []byte) int = int(m[38])
+//@ purerec chCsOff(m []byte) int = 39 + chSidLen(m)
+//@ purerec chCsLen(m []byte) int = be16(m, chCsOff(m))
+//@ purerec chCmOff(m []byte) int = chCsOff(m) + 2 + chCsLen(m)
+//@ purerec chCmLen(m []byte) int = int(m[chCmOff(m)])
+//@ purerec chExOff(m []byte) int = chCmOff(m) + 1 + chCmLen(m)
+//@ purerec chExLen(m []byte) int = be16(m, chExOff(m))
+//@ purerec chExStart(m []byte) int = chExOff(m) + 2
+// chEoff(m, i): offset of the i-th extension relative to the start of the extension block, read off the declared lengths.
+//@ purerec chEoff(m []byte, i int) int = ite(i <= 0, 0, chEoff(m, i-1) + 4 + be16(m, chExStart(m) + chEoff(m, i-1) + 2))
+// parsedFrom: the fields of h are exactly those encoded in m.
+//@ pure parsedFrom(h *clientHello, m []byte) bool = len(m) >= 4 && int(m[0]) == 1 && len(m) >= 4 + be24(m, 1) &&
+//@     int(h.LegacyVersion) == be16(m, 4) && bytesEq(h.Random, window(m, 6, 32)) &&
+//@     bytesEq(h.LegacySessionID, window(m, 39, chSidLen(m))) &&
+//@     bytesEq(h.CipherSuite, window(m, chCsOff(m) + 2, chCsLen(m))) &&
+//@     bytesEq(h.LegacyCompressionMethods, window(m, chCmOff(m) + 1, chCmLen(m))) &&
+//@     chExStart(m) + chExLen(m) <= 4 + be24(m, 1) && chEoff(m, len(h.Extensions)) == chExLen(m) &&
+//@     forall(i, 0, len(h.Extensions), int(h.Extensions[i].Type) == be16(m, chExStart(m) + chEoff(m, i)) &&
+//@         len(h.Extensions[i].Data) == be16(m, chExStart(m) + chEoff(m, i) + 2) &&
+//@         bytesEq(h.Extensions[i].Data, window(m, chExStart(m) + chEoff(m, i) + 4, be16(m, chExStart(m) + chEoff(m, i) + 2))) && chEoff(m, i) >= 0, trig(h.Extensions[i]))
+// noSlack: the message fills its buffer and nothing follows the extension block.
+//@ pure noSlack(m []byte) bool = len(m) == 4 + be24(m, 1) && chExStart(m) + chExLen(m) == len(m)
+
 // echInv: what parseExtensions establishes about the ECH extension(s); needed by marshal(aad).
 //@ pure echInv(c *clientHello) bool = forall(i, 0, len(c.Extensions), c.Extensions[i].Type == 0xfe0d ==> c.echExt != nil && len(c.echExt.Payload) <= len(c.Extensions[i].Data))
 
@@ -160,13 +186,23 @@ package ech
 //@   inline
 
 //@ func clientHello.marshal returns (out, err)
+//@   ghostparam m []byte
 //@   requires c != nil
 //@   requires aad ==> echInv(c)
 //@   terminates
+//@   ensures[L:header] err == nil ==> int(out[0]) == 0x16 && be16(out, 1) == int(c.LegacyVersion) && be16(out, 3) == len(out) - 5 && int(out[5]) == 1 && be24(out, 6) == len(out) - 9
 //@   ensures[F:errclass] err != nil ==> liberr(err) && isnil(out) && len(out) == 0
 //@   ensures[S:size] err == nil ==> len(out) >= 9 && len(out) <= 5 + 65535
 //@   loop 1 "range c.Extensions"
 //@     invariant[grows] len(bbuf(b)) >= entry(len(bbuf(b)))
+//@   behavior passthrough
+//@     assumes !aad && parsedFrom(c, m) && noSlack(m)
+//@     ensures[L:passthrough] err == nil ==> len(out) == 5 + len(m) && forall(j, 5, len(out), out[j] == m[j-5])
+//@     ensures[L:succeeds] len(m) <= 65535 ==> err == nil
+//@     loop 1 "range c.Extensions"
+//@       invariant[L:pos] len(bbuf(b)) == 5 + chExStart(m) + chEoff(m, ri1)
+//@       invariant[L:noerr] !berr(b)
+//@       invariant[L:prefix] forall(j, 9, len(bbuf(b)), j != 5 + chExOff(m) && j != 6 + chExOff(m) ==> mem(bbuf(b), j) == m[j-5])
 
 //@ func clientHello.parseExtensions returns (err)
 //@   requires c != nil
@@ -185,6 +221,13 @@ package ech
 //@   allocates clientHello, echExt
 //@   terminates
 //@   ensures[S:nonnil] err == nil ==> hello != nil && fresh(hello) && echInv(hello) && (hello.echExt != nil ==> hello.echExt.Type <= 1)
+//@   ensures[L:parsed] err == nil ==> parsedFrom(hello, buf)
+//@   loop 1 "!extensions.Empty()"
+//@     invariant[L:pos] sameArray(extensions, buf) && offset(extensions) == offset(buf) + chExStart(buf) + chEoff(buf, len(hello.Extensions)) &&
+//@         len(extensions) == chExLen(buf) - chEoff(buf, len(hello.Extensions)) && chEoff(buf, len(hello.Extensions)) >= 0
+//@     invariant[L:items] forall(i, 0, len(hello.Extensions), int(hello.Extensions[i].Type) == be16(buf, chExStart(buf) + chEoff(buf, i)) &&
+//@         len(hello.Extensions[i].Data) == be16(buf, chExStart(buf) + chEoff(buf, i) + 2) &&
+//@         bytesEq(hello.Extensions[i].Data, window(buf, chExStart(buf) + chEoff(buf, i) + 4, be16(buf, chExStart(buf) + chEoff(buf, i) + 2))) && chEoff(buf, i) >= 0, trig(hello.Extensions[i]))
 //@   ensures[F:nilerr] err != nil ==> hello == nil
 //@   ensures[F:errclass] err != nil ==> alertCode(err) == 50 || alertCode(err) == 47 || alertCode(err) == 10
 
@@ -282,6 +325,7 @@ package ech
 //@   allocates clientHello, echExt, hpke.Receipient
 //@   terminates
 //@   ensures[S:outer] err == nil ==> outer != nil && fresh(outer)
+//@   ensures[L:parsed-outer] err == nil ==> parsedFrom(outer, record[5:])
 //@   ensures[F:outer-rules] err == nil ==> !outer.hasECHOuterExtensions && !(len(c.keys) > 0 && outer.echExt != nil && outer.echExt.Type == 1)
 //@   ensures[F:inner-rules] err == nil && inner != nil ==> inner.tls13 && outer.tls13 && outer.echExt != nil && outer.echExt.Type == 0
 //@   ensures[F:retry-rules] isRetry && err == nil ==> outer.echExt != nil && outer.echExt.ConfigID == c.outer.echExt.ConfigID && outer.echExt.CipherSuite == c.outer.echExt.CipherSuite && len(outer.echExt.Enc) == 0 &&
@@ -295,7 +339,7 @@ package ech
 //@ func Conn.Read returns (n, err)
 //@   requires connInv(c)
 //@   writes b
-//@   modifies c.readBuf, c.readErr, c.readPassthrough, hseq, hid, rpos(c.Conn), slen(c.Conn), closed(c.Conn), c.writeBuf, c.writePassthrough, atomic32(c.retryCount)
+//@   modifies c.readBuf, c.readErr, c.readPassthrough, c.hpkeCtx, hseq, hid, rpos(c.Conn), slen(c.Conn), closed(c.Conn), c.writeBuf, c.writePassthrough, atomic32(c.retryCount)
 //@   allocates clientHello, echExt, hpke.Receipient, serverHello
 //@   terminates
 //@   ensures[S:inv] connInv(c)
@@ -304,6 +348,7 @@ package ech
 //@   ensures[F:no-decrypt-without-hrr] hseq(c.hpkeCtx) != old(hseq(c.hpkeCtx)) ==> old(atomic32(c.retryCount)) == 1 && !old(c.readPassthrough) && old(len(c.readBuf)) == 0 && old(c.readErr) == nil
 //@   ensures[F:single-retry] hseq(c.hpkeCtx) != old(hseq(c.hpkeCtx)) ==> c.readPassthrough
 //@   ensures[F:passthrough-sticky] old(c.readPassthrough) ==> c.readPassthrough
+//@   ensures[F:ctx-kept] c.hpkeCtx == old(c.hpkeCtx)
 //@   ensures[F:appdata-stops] old(len(c.readBuf)) == 0 && old(c.readErr) == nil && !old(c.readPassthrough) && c.readErr == nil && rpos(c.Conn) > old(rpos(c.Conn)) && inAt(c.Conn, old(rpos(c.Conn))) == 23 ==> c.readPassthrough
 //@   ensures[F:retry-abort] old(len(c.readBuf)) == 0 && !old(c.readPassthrough) && c.readPassthrough && err != nil && !liberr(err) && old(len(c.writeBuf)) == 0 ==>
 //@       n == 0 && len(c.readBuf) == 0 && c.readErr == err && alerted(c.Conn, old(slen(c.Conn)), alertCode(err))
@@ -329,4 +374,8 @@ package ech
 //@   ensures[F:alert-on-error] err != nil ==> alerted(conn, old(slen(conn)), alertCode(err))
 //@   ensures[F:no-forward-on-error] err != nil ==> outConn == nil || len(outConn.readBuf) == 0
 //@   ensures[F:quiet-on-success] err == nil ==> slen(conn) == old(slen(conn)) && closed(conn) == old(closed(conn))
+//@   bind "outConn.outer.Marshal()" m = record[5:]
+//@   check[L:passthrough] err == nil && outConn.inner == nil && noSlack(record[5:]) ==> outConn.readPassthrough && outConn.writePassthrough &&
+//@       len(outConn.readBuf) == len(record) && forall(j, 5, len(record), outConn.readBuf[j] == record[j]) && int(outConn.readBuf[0]) == 0x16 && be16(outConn.readBuf, 3) == be16(record, 3)
+//@   check[L:record-is-stream] err == nil ==> len(record) == rpos(conn) - old(rpos(conn)) && forall(j, old(rpos(conn)), rpos(conn), inAt(conn, j) == record[j - old(rpos(conn))])
 //@   ensures[F:errclass] err != nil ==> alertCode(err) == 10 || alertCode(err) == 47 || alertCode(err) == 50 || alertCode(err) == 51 || alertCode(err) == 109 || liberr(err)
